@@ -1,19 +1,508 @@
-(* C03 - proofs about the scalar model (see design/C03.md). *)
-From Coq Require Import List ZArith NArith Bool Lia.
-From Verif Require Import Base.Order Scalar.Spec Scalar.Model.
+(* C03 - proofs about the scalar model (see design/C03.md).
+
+   Part 1: kinds, order reasoning, soundness of SimplifyBounds.
+   Part 2 (Accum.v): the accumulator invariant and the end-to-end theorems. *)
+From Coq Require Import List ZArith NArith Bool Lia QArith Lqa.
+From Verif Require Import Base.Order Scalar.Spec Scalar.Model Scalar.DecProofs.
 Import ListNotations.
 Open Scope Z_scope.
+
+(* --------------------------------------------------------------- kinds -- *)
+
+Definition has (k : N) (a : atom) : bool := negb (N.land k (atom_kind a) =? 0)%N.
+
+Definition kbit (a : atom) : N :=
+  match a with
+  | ANull => 0 | ABool _ => 1 | AInt _ => 2 | AFloat _ => 3 | AStr _ => 4 | ABytes _ => 5
+  end%N.
+
+Lemma atom_kind_pow2 : forall a, atom_kind a = (2 ^ kbit a)%N.
+Proof. destruct a; reflexivity. Qed.
+
+Lemma land_pow2_testbit : forall k i, (N.land k (2 ^ i) =? 0)%N = negb (N.testbit k i).
+Proof.
+  intros k i. destruct (N.testbit k i) eqn:T; cbn [negb].
+  - apply N.eqb_neq. intro E.
+    assert (H : N.testbit (N.land k (2 ^ i)) i = true).
+    { rewrite N.land_spec, T, N.pow2_bits_true. reflexivity. }
+    rewrite E, N.bits_0 in H. discriminate.
+  - apply N.eqb_eq. apply N.bits_inj. intro j.
+    rewrite N.land_spec, N.bits_0, N.pow2_bits_eqb.
+    destruct (N.eqb_spec i j) as [->|]; [rewrite T|]; auto using andb_false_r.
+Qed.
+
+Lemma has_testbit : forall k a, has k a = N.testbit k (kbit a).
+Proof. intros. unfold has. rewrite atom_kind_pow2, land_pow2_testbit, negb_involutive. reflexivity. Qed.
+
+Lemma has_land : forall k1 k2 a, has (N.land k1 k2) a = has k1 a && has k2 a.
+Proof. intros. rewrite !has_testbit. apply N.land_spec. Qed.
+
+Lemma has_zero : forall a, has 0 a = false.
+Proof. intros. rewrite has_testbit. apply N.bits_0. Qed.
+
+Lemma has_nonzero : forall k a, has k a = true -> k <> 0%N.
+Proof. intros k a H ->. rewrite has_zero in H. discriminate. Qed.
+
+Lemma has_atom_kind : forall a b, has (atom_kind a) b = true <-> kbit a = kbit b.
+Proof.
+  intros a b. rewrite has_testbit, atom_kind_pow2, N.pow2_bits_eqb. rewrite N.eqb_eq. reflexivity.
+Qed.
+
+Lemma nofloat_int : forall k a, (N.land k FloatKind =? 0)%N = true -> has k a = true ->
+  forall d, a <> AFloat d.
+Proof.
+  intros k a H Hk d ->. unfold has in Hk. cbn [atom_kind] in Hk. rewrite H in Hk. discriminate.
+Qed.
+
+(* ----------------------------------------------------- order reasoning -- *)
+
+Lemma total_cmp_pre : forall {A} (c : A -> A -> comparison), total_cmp c -> total_pre c.
+Proof.
+  intros A c H. constructor.
+  - apply tc_refl; assumption.
+  - apply (tc_opp c H).
+  - apply (tc_trans c H).
+  - intros x y z E. apply (tc_eq c H) in E. subst. reflexivity.
+Qed.
+
+Lemma str_cmp_total : total_cmp str_cmp.
+Proof. apply list_cmp_total. apply N_compare_total. Qed.
+
+Lemma str_cmp_pre : total_pre str_cmp.
+Proof. apply total_cmp_pre, str_cmp_total. Qed.
+
+Lemma str_cmp_eq : forall s t, str_cmp s t = Eq -> s = t.
+Proof. intros s t. apply (tc_eq _ str_cmp_total). Qed.
+
+Section Order.
+  Variable T : Type.
+  Variable c : T -> T -> comparison.
+  Hypothesis Hc : total_pre c.
+
+  Lemma cmp_compose : forall a x y,
+    match c a x, c x y with
+    | Eq, r => c a y = r
+    | r, Eq => c a y = r
+    | Lt, Lt => c a y = Lt
+    | Gt, Gt => c a y = Gt
+    | _, _ => True
+    end.
+  Proof.
+    intros a x y.
+    destruct (c a x) eqn:E1; destruct (c x y) eqn:E2; try exact I.
+    - rewrite (tp_eq_l c Hc _ _ _ E1). assumption.
+    - rewrite (tp_eq_l c Hc _ _ _ E1). assumption.
+    - rewrite (tp_eq_l c Hc _ _ _ E1). assumption.
+    - assert (E3 : c y x = Eq) by (rewrite (tp_opp c Hc), E2; reflexivity).
+      rewrite (tp_opp c Hc), (tp_eq_l c Hc _ _ a E3), <- (tp_opp c Hc). assumption.
+    - apply (tp_trans c Hc _ _ _ E1 E2).
+    - assert (E3 : c y x = Eq) by (rewrite (tp_opp c Hc), E2; reflexivity).
+      rewrite (tp_opp c Hc), (tp_eq_l c Hc _ _ a E3), <- (tp_opp c Hc). assumption.
+    - assert (F1 : c x a = Lt) by (rewrite (tp_opp c Hc), E1; reflexivity).
+      assert (F2 : c y x = Lt) by (rewrite (tp_opp c Hc), E2; reflexivity).
+      rewrite (tp_opp c Hc), (tp_trans c Hc _ _ _ F2 F1). reflexivity.
+  Qed.
+
+  (* the non-opposite, non-regexp arms of SimplifyBounds inside one ordered family *)
+  Definition abs_simplify (ox oy : bop) (x y : T) : sres :=
+    let '(cmp, xc) := op_info ox in
+    let '(_, yc) := op_info oy in
+    if xc =? yc then
+      match ox with
+      | ONe | OMatch | ONMatch => if match c x y with Eq => true | _ => false end then SKeepX else SNone
+      | _ => if cmp_to_bool cmp (c x y) then SKeepX else SKeepY
+      end
+    else if xc =? - yc then SNone
+    else if bop_eqb ox ONe then
+      if negb (cmp_to_bool oy (c x y)) then SKeepY else SNone
+    else if bop_eqb oy ONe then
+      if negb (cmp_to_bool ox (c y x)) then SKeepX else SNone
+    else SNone.
+
+  Definition nomatch (o : bop) : bool := match o with OMatch | ONMatch => false | _ => true end.
+
+  Lemma abs_sound : forall (P : Prop) ox oy a x y, nomatch ox = true -> nomatch oy = true ->
+    match abs_simplify ox oy x y with
+    | SKeepX => test_rel ox (c a x) = true -> test_rel oy (c a y) = true
+    | SKeepY => test_rel oy (c a y) = true -> test_rel ox (c a x) = true
+    | SBottom => P
+    | SNone => True
+    end.
+  Proof.
+    intros P ox oy a x y Hx Hy.
+    pose proof (cmp_compose a x y) as C.
+    pose proof (cmp_compose a y x) as C'.
+    pose proof (tp_opp c Hc y x) as O.
+    unfold abs_simplify.
+    destruct ox; try discriminate Hx; destruct oy; try discriminate Hy; cbn;
+      destruct (c a x); destruct (c x y); cbn in O; rewrite O in *; cbn in *;
+        destruct (c a y); cbn in *; try exact I; try congruence; try (intros; congruence).
+  Qed.
+
+  (* string / bytes arm, x the lower and y the upper bound *)
+  Lemma ordered_sound : forall ox oy a x y,
+    is_lower_op ox = true -> (bop_eqb oy OLt || bop_eqb oy OLe) = true ->
+    simplify_ordered (c x y) (mkbound ox ANull) (mkbound oy ANull) = SBottom ->
+    test_rel ox (c a x) && test_rel oy (c a y) = false.
+  Proof.
+    intros ox oy a x y Hx Hy.
+    pose proof (cmp_compose a x y) as C.
+    unfold simplify_ordered; cbn [b_op].
+    destruct ox; try discriminate Hx; destruct oy; try discriminate Hy; cbn;
+      destruct (c a x); destruct (c x y); cbn in *; try discriminate;
+        destruct (c a y); cbn in *; try reflexivity; try congruence; intros; congruence.
+  Qed.
+End Order.
+
+Lemma cmp_to_bool_test_rel : forall o c, nomatch o = true -> cmp_to_bool o c = test_rel o c.
+Proof. intros o c H. destruct o; try discriminate H; destruct c; reflexivity. Qed.
+
+Definition is_upper_op (o : bop) : bool := bop_eqb o OLt || bop_eqb o OLe.
+
+(* an integral-valued decimal *)
+Lemma dval_nonneg_exp_int : forall d, 0 <= dexp d -> (dval d == inject_Z (dsigned d * 10 ^ dexp d))%Q.
+Proof. intros d H. unfold dval. rewrite p10_Z by assumption. rewrite inject_Z_mult. reflexivity. Qed.
+
+Definition bsafe (x : bound) : bool := match b_val x with AFloat d => dsafe d | _ => true end.
+
+Lemma dsafe_of_Z : forall z, dsafe (dec_of_Z z) = true.
+Proof.
+  intros z. unfold dsafe, dec_of_Z; cbn [dneg dcoef dexp].
+  replace (0 <=? 0) with true by reflexivity. rewrite orb_true_l, andb_true_r.
+  destruct (z <? 0) eqn:E; [|reflexivity]. apply Z.ltb_lt in E. cbn [andb].
+  apply negb_true_iff, N.eqb_neq. lia.
+Qed.
+
+Lemma num_of_safe : forall x d, bsafe x = true -> num_of (b_val x) = Some d -> dsafe d = true.
+Proof.
+  intros [o v] d; unfold bsafe; cbn [b_val]. destruct v; cbn [num_of]; intros S [= <-]; auto using dsafe_of_Z.
+Qed.
 
 Section WithRegexp.
   Variable re : str -> str -> bool.
 
-  (* int and float literals are distinct kinds *)
-  Lemma int_float_distinct : forall z d,
-    sat re (AInt z) (CElem (KAtom (AFloat d))) = false /\
-    sat re (AFloat d) (CElem (KAtom (AInt z))) = false /\
-    sat re (AInt z) (CElem (KType TFloat)) = false /\
-    sat re (AFloat d) (CElem (KType TInt)) = false /\
-    sat re (AInt z) (CElem (KType TNumber)) = true /\
-    sat re (AFloat d) (CElem (KType TNumber)) = true.
-  Proof. intros; repeat split; reflexivity. Qed.
+  Definition satb (a : atom) (x : bound) : bool := sat_bound re a (b_op x) (b_val x).
+
+  Lemma sat_num : forall a v da dv o, num_of a = Some da -> num_of v = Some dv -> nomatch o = true ->
+    sat_bound re a o v = test_rel o (dcmp da dv).
+  Proof.
+    intros a v da dv o Ha Hv Ho.
+    destruct a; try discriminate Ha; destruct v; try discriminate Hv;
+      cbn [num_of] in Ha, Hv; injection Ha as <-; injection Hv as <-;
+        destruct o; try discriminate Ho; reflexivity.
+  Qed.
+
+  (* the numeric arm: x the lower, y the upper bound *)
+  Lemma simplify_num_sound : forall k ox oy xv yv a0 b0 a da,
+    is_lower_op ox = true -> is_upper_op oy = true ->
+    num_of a = Some da -> has k a = true ->
+    dsafe a0 = true -> dsafe b0 = true ->
+    simplify_num k (mkbound ox xv) (mkbound oy yv) a0 b0 = SBottom ->
+    test_rel ox (dcmp da a0) && test_rel oy (dcmp da b0) = false.
+  Proof.
+    intros k ox oy xv yv a0 b0 a da Hox Hoy Ha Hk Sa Sb.
+    destruct (test_rel ox (dcmp da a0)) eqn:T1; [|reflexivity].
+    destruct (test_rel oy (dcmp da b0)) eqn:T2; [|reflexivity].
+    intro HB. exfalso.
+    set (V := dval da). set (A := dval a0). set (B := dval b0).
+    (* what the two bounds say about the value *)
+    assert (L1 : (ox = OGe /\ A <= V)%Q \/ (ox = OGt /\ A < V)%Q).
+    { destruct ox; try discriminate Hox; [right|left]; split; try reflexivity;
+        destruct (dcmp_spec da a0); try discriminate T1; unfold A, V; lra. }
+    assert (U1 : (oy = OLe /\ V <= B)%Q \/ (oy = OLt /\ V < B)%Q).
+    { destruct oy; try discriminate Hoy; [right|left]; split; try reflexivity;
+        destruct (dcmp_spec da b0); try discriminate T2; unfold B, V; lra. }
+    unfold simplify_num in HB. cbn [b_op] in HB.
+    set (noFloat := (N.land k FloatKind =? 0)%N) in *.
+    set (lo := if noFloat && (dexp a0 <? 0) then if bop_eqb ox OGe then ctx_ceil a0 else ctx_floor a0 else a0) in *.
+    set (hi := if noFloat && (dexp b0 <? 0) then if bop_eqb oy OLe then ctx_floor b0 else ctx_ceil b0 else b0) in *.
+    destruct ((0 <? dec_sign hi) && (dec_sign lo <=? 0) && (0 <=? dexp hi) && (10 <=? dcoef hi)%N); [discriminate|].
+    destruct (ctx_add hi lo true) as [[d inx]|] eqn:EA; [|discriminate].
+    destruct inx; [discriminate|].
+    destruct (ctx_add_exact _ _ _ _ EA) as [Vd NZ].
+    (* lower bound after the readjustment *)
+    assert (LO : exists LOq, (dval lo == LOq)%Q /\
+              ((ox = OGe /\ LOq <= V) \/ (ox = OGt /\ LOq < V))%Q /\
+              (noFloat = true -> exists l z, (LOq == inject_Z l)%Q /\ (V == inject_Z z)%Q)).
+    { destruct noFloat eqn:NF.
+      - (* a is an integer *)
+        assert (exists z, a = AInt z) as [z ->].
+        { destruct a; try discriminate Ha; eauto.
+          exfalso. eapply (nofloat_int k); eauto. }
+        cbn [num_of] in Ha. injection Ha as <-.
+        assert (Vz : (V == inject_Z z)%Q) by apply dval_of_Z.
+        unfold lo. cbn [andb].
+        destruct (dexp a0 <? 0) eqn:EN.
+        + apply Z.ltb_lt in EN.
+          destruct L1 as [[-> L]|[-> L]]; cbn [bop_eqb].
+          * destruct (ceil_spec a0 Sa EN) as (c & C1 & C2 & C3 & _).
+            exists (inject_Z c). split; [assumption|]. split.
+            -- left. split; [reflexivity|]. rewrite Vz. rewrite <- Zle_Qle.
+               fold A in C2, C3. rewrite Vz in L.
+               assert (inject_Z (c - 1) < inject_Z z)%Q by lra.
+               rewrite <- Zlt_Qlt in H. lia.
+            -- intros _. exists c, z. split; [reflexivity|assumption].
+          * destruct (floor_spec a0 Sa EN) as (f & C1 & C2 & C3 & _).
+            exists (inject_Z f). split; [assumption|]. split.
+            -- right. split; [reflexivity|]. rewrite Vz. rewrite <- Zlt_Qlt.
+               fold A in C2, C3. rewrite Vz in L.
+               assert (inject_Z f < inject_Z z)%Q by lra.
+               rewrite <- Zlt_Qlt in H. lia.
+            -- intros _. exists f, z. split; [reflexivity|assumption].
+        + apply Z.ltb_ge in EN. exists A. split; [reflexivity|]. split; [assumption|].
+          intros _. exists (dsigned a0 * 10 ^ dexp a0), z. split; [apply dval_nonneg_exp_int; assumption|assumption].
+      - unfold lo. cbn [andb]. exists A. split; [reflexivity|]. split; [assumption|]. discriminate. }
+    assert (HI : exists HIq, (dval hi == HIq)%Q /\
+              ((oy = OLe /\ V <= HIq) \/ (oy = OLt /\ V < HIq))%Q /\
+              (noFloat = true -> exists h, (HIq == inject_Z h)%Q) /\
+              (dneg hi = true -> dcoef hi = 0%N -> oy = OLt /\ (V < HIq)%Q)).
+    { destruct noFloat eqn:NF.
+      - assert (exists z, a = AInt z) as [z ->].
+        { destruct a; try discriminate Ha; eauto.
+          exfalso. eapply (nofloat_int k); eauto. }
+        cbn [num_of] in Ha. injection Ha as <-.
+        assert (Vz : (V == inject_Z z)%Q) by apply dval_of_Z.
+        unfold hi. cbn [andb].
+        destruct (dexp b0 <? 0) eqn:EN.
+        + apply Z.ltb_lt in EN.
+          destruct U1 as [[-> U]|[-> U]]; cbn [bop_eqb].
+          * destruct (floor_spec b0 Sb EN) as (f & C1 & C2 & C3 & C4).
+            exists (inject_Z f). split; [assumption|].
+            assert (Zf : z <= f).
+            { fold B in C2, C3. rewrite Vz in U.
+              assert (inject_Z z < inject_Z (f + 1))%Q by lra.
+              rewrite <- Zlt_Qlt in H. lia. }
+            split; [|split].
+            -- left. split; [reflexivity|]. rewrite Vz. rewrite <- Zle_Qle. assumption.
+            -- intros _. exists f. reflexivity.
+            -- intros N1 N2. exfalso. apply C4. split; assumption.
+          * destruct (ceil_spec b0 Sb EN) as (c & C1 & C2 & C3 & C4).
+            exists (inject_Z c). split; [assumption|].
+            assert (Zc : z < c).
+            { fold B in C2, C3. rewrite Vz in U.
+              assert (inject_Z z < inject_Z c)%Q by lra.
+              rewrite <- Zlt_Qlt in H. assumption. }
+            split; [|split].
+            -- right. split; [reflexivity|]. rewrite Vz. rewrite <- Zlt_Qlt. assumption.
+            -- intros _. exists c. reflexivity.
+            -- intros _ _. split; [reflexivity|]. rewrite Vz. rewrite <- Zlt_Qlt. assumption.
+        + apply Z.ltb_ge in EN. exists B. split; [reflexivity|]. split; [assumption|]. split.
+          * intros _. exists (dsigned b0 * 10 ^ dexp b0). apply dval_nonneg_exp_int; assumption.
+          * intros N1 N2. exfalso. unfold dsafe in Sb. rewrite N1, N2 in Sb. discriminate Sb.
+      - unfold hi. cbn [andb]. exists B. split; [reflexivity|]. split; [assumption|]. split; [discriminate|].
+        intros N1 N2. exfalso. unfold dsafe in Sb. rewrite N1, N2 in Sb. discriminate Sb. }
+    destruct LO as (LOq & ELo & L2 & IL). destruct HI as (HIq & EHi & U2 & IH & NZH).
+    assert (Vd' : (dval d == HIq - LOq)%Q) by (rewrite Vd, EHi, ELo; ring).
+    destruct (dneg d) eqn:ND.
+    - (* negative difference *)
+      pose proof (dneg_nonpos d ND) as NP.
+      destruct (Qlt_le_dec (dval d) 0) as [Hlt|Hge].
+      + destruct L2 as [[_ L2]|[_ L2]], U2 as [[_ U2]|[_ U2]]; lra.
+      + assert (D0 : (dval d == 0)%Q) by lra.
+        pose proof (dval_zero_coef d D0) as C0.
+        destruct (NZ eq_refl C0) as (N1 & N2 & _ & _).
+        destruct (NZH N1 N2) as [_ S]. destruct L2 as [[_ L2]|[_ L2]]; lra.
+    - destruct (dec_int64 d) as [n|] eqn:EI; [|discriminate].
+      pose proof (dec_int64_val d n EI) as Vn.
+      destruct n as [|p|p]; try discriminate.
+      + (* diff = 0 *)
+        destruct (bop_eqb ox OGe && bop_eqb oy OLe) eqn:GE; [discriminate|].
+        assert (D0 : (dval d == 0)%Q) by (rewrite Vn; reflexivity).
+        destruct L2 as [[-> L2]|[-> L2]], U2 as [[-> U2]|[-> U2]]; try discriminate GE; lra.
+      + destruct p as [p|p|]; try discriminate.
+        * destruct p; discriminate.
+        * (* diff = 1 *)
+          destruct noFloat eqn:NF; [|discriminate].
+          destruct (bop_eqb ox OGe && bop_eqb oy OLt); [discriminate|].
+          destruct (bop_eqb ox OGt && bop_eqb oy OLe); [discriminate|].
+          destruct (bop_eqb ox OGt && bop_eqb oy OLt) eqn:GT; [|discriminate].
+          destruct (IL eq_refl) as (l & z & El & Ez). destruct (IH eq_refl) as (h & Eh).
+          destruct L2 as [[-> L2]|[-> L2]]; [discriminate GT|].
+          destruct U2 as [[-> U2]|[-> U2]]; [discriminate GT|].
+          rewrite El, Ez in L2. rewrite Eh, Ez in U2.
+          rewrite <- Zlt_Qlt in L2, U2.
+          assert (E1 : (inject_Z (h - l) == inject_Z 1)%Q).
+          { unfold Z.sub. rewrite inject_Z_plus, inject_Z_opp. rewrite <- Eh, <- El.
+            fold (Qminus HIq LOq). rewrite <- Vd', Vn. reflexivity. }
+          unfold Qeq in E1. cbn [Qnum Qden inject_Z] in E1. lia.
+  Qed.
+
+Definition keep_ok (r : sres) (a : atom) (x y : bound) (bot : Prop) : Prop :=
+  match r with
+  | SKeepX => satb a x = true -> satb a y = true
+  | SKeepY => satb a y = true -> satb a x = true
+  | SBottom => bot
+  | SNone => True
+  end.
+
+Lemma simplify_num_cases : forall k x y a b, simplify_num k x y a b = SNone \/ simplify_num k x y a b = SBottom.
+Proof.
+  intros. unfold simplify_num.
+  repeat match goal with
+  | |- context [if ?c then _ else _] => destruct c
+  | |- context [match ?c with _ => _ end] => destruct c
+  end; auto.
+Qed.
+
+Lemma simplify_ordered_cases : forall c x y, simplify_ordered c x y = SNone \/ simplify_ordered c x y = SBottom.
+Proof. intros. unfold simplify_ordered. destruct c; auto. destruct (_ && _); auto. Qed.
+
+Ltac kill_kinds :=
+  repeat match goal with
+  | H : has (bound_kind _) _ = true |- _ => vm_compute in H; try discriminate H; clear H
+  end.
+
+
+Lemma has_num_kind : forall o xv d a, num_of xv = Some d -> has (bound_kind (mkbound o xv)) a = true ->
+  exists da, num_of a = Some da.
+Proof.
+  intros o xv d a Hn H. destruct xv; try discriminate Hn; destruct a; vm_compute in H; try discriminate H; cbn; eauto.
+Qed.
+
+(* opposite directions, x the lower and y the upper bound, after the swap *)
+Lemma opp_core : forall (safe : bool) k ox oy xv yv a,
+  is_lower_op ox = true -> is_upper_op oy = true ->
+  has k a = true -> has (bound_kind (mkbound ox xv)) a = true -> has (bound_kind (mkbound oy yv)) a = true ->
+  (safe = true -> bsafe (mkbound ox xv) = true /\ bsafe (mkbound oy yv) = true) ->
+  let r :=
+    if (k =? StringKind)%N then
+      match xv, yv with AStr s, AStr t => simplify_ordered (str_cmp s t) (mkbound ox xv) (mkbound oy yv) | _, _ => SNone end
+    else if (k =? BytesKind)%N then
+      match xv, yv with ABytes s, ABytes t => simplify_ordered (str_cmp s t) (mkbound ox xv) (mkbound oy yv) | _, _ => SNone end
+    else match num_of xv, num_of yv with
+         | Some a0, Some b0 => simplify_num k (mkbound ox xv) (mkbound oy yv) a0 b0
+         | _, _ => SNone
+         end in
+  (r = SNone \/ r = SBottom) /\
+  (r = SBottom -> safe = true -> satb a (mkbound ox xv) && satb a (mkbound oy yv) = false).
+Proof.
+  intros safe k ox oy xv yv a Hox Hoy Hk Hx Hy Hs r. subst r.
+  destruct (k =? StringKind)%N.
+  { destruct xv; try (split; [auto|discriminate]). destruct yv; try (split; [auto|discriminate]).
+    split; [apply simplify_ordered_cases|]. intros E _.
+    destruct a; try (vm_compute in Hx; discriminate Hx).
+    unfold satb; cbn [b_op b_val].
+    assert (nomatch ox = true) by (destruct ox; try discriminate Hox; reflexivity).
+    assert (nomatch oy = true) by (destruct oy; try discriminate Hoy; reflexivity).
+    replace (sat_bound re (AStr s1) ox (AStr s)) with (test_rel ox (str_cmp s1 s)) by (destruct ox; try discriminate; reflexivity).
+    replace (sat_bound re (AStr s1) oy (AStr s0)) with (test_rel oy (str_cmp s1 s0)) by (destruct oy; try discriminate; reflexivity).
+    apply (ordered_sound str str_cmp str_cmp_pre); assumption. }
+  destruct (k =? BytesKind)%N.
+  { destruct xv; try (split; [auto|discriminate]). destruct yv; try (split; [auto|discriminate]).
+    split; [apply simplify_ordered_cases|]. intros E _.
+    destruct a; try (vm_compute in Hx; discriminate Hx).
+    unfold satb; cbn [b_op b_val].
+    assert (nomatch ox = true) by (destruct ox; try discriminate Hox; reflexivity).
+    assert (nomatch oy = true) by (destruct oy; try discriminate Hoy; reflexivity).
+    replace (sat_bound re (ABytes s1) ox (ABytes s)) with (test_rel ox (str_cmp s1 s)) by (destruct ox; try discriminate; reflexivity).
+    replace (sat_bound re (ABytes s1) oy (ABytes s0)) with (test_rel oy (str_cmp s1 s0)) by (destruct oy; try discriminate; reflexivity).
+    apply (ordered_sound str str_cmp str_cmp_pre); assumption. }
+  destruct (num_of xv) as [a0|] eqn:Nx; [|split; [auto|discriminate]].
+  destruct (num_of yv) as [b0|] eqn:Ny; [|split; [auto|discriminate]].
+  split; [apply simplify_num_cases|]. intros E Hsafe.
+  destruct (Hs Hsafe) as [S1 S2].
+  destruct (has_num_kind _ _ _ _ Nx Hx) as [da Na].
+  unfold satb; cbn [b_op b_val].
+  assert (nomatch ox = true) by (destruct ox; try discriminate Hox; reflexivity).
+  assert (nomatch oy = true) by (destruct oy; try discriminate Hoy; reflexivity).
+  rewrite (sat_num a xv da a0 ox Na Nx), (sat_num a yv da b0 oy Na Ny) by assumption.
+  apply (simplify_num_sound k ox oy xv yv a0 b0 a da); try assumption.
+  - eapply num_of_safe; [exact S1|exact Nx].
+  - eapply num_of_safe; [exact S2|exact Ny].
+Qed.
+
+Lemma imp_and_swap : forall (P A B : Prop), (P -> A /\ B) -> (P -> B /\ A).
+Proof. intros P A B H p. destruct (H p); split; assumption. Qed.
+
+Ltac opp_xy safe k ox oy xv yv a Hk Hx Hy Hs :=
+  destruct (opp_core safe k ox oy xv yv a eq_refl eq_refl Hk Hx Hy Hs) as [[C|C] B];
+  unfold keep_ok;
+  [ replace (simplify re k (mkbound ox xv) (mkbound oy yv)) with SNone by (symmetry; exact C); exact I
+  | replace (simplify re k (mkbound ox xv) (mkbound oy yv)) with SBottom by (symmetry; exact C); exact (B C) ].
+
+Ltac opp_yx safe k ox oy xv yv a Hk Hx Hy Hs :=
+  destruct (opp_core safe k ox oy xv yv a eq_refl eq_refl Hk Hx Hy
+              (imp_and_swap _ _ _ Hs)) as [[C|C] B];
+  unfold keep_ok;
+  [ replace (simplify re k (mkbound oy yv) (mkbound ox xv)) with SNone by (symmetry; exact C); exact I
+  | replace (simplify re k (mkbound oy yv) (mkbound ox xv)) with SBottom by (symmetry; exact C);
+    let h := fresh "h" in (intro h; rewrite andb_comm; exact (B C h)) ].
+
+Lemma simplify_sound_gen : forall (safe : bool) k x y a,
+  has k a = true -> has (bound_kind x) a = true -> has (bound_kind y) a = true ->
+  (safe = true -> bsafe x = true /\ bsafe y = true) ->
+  keep_ok (simplify re k x y) a x y (safe = true -> satb a x && satb a y = false).
+Proof.
+  intros safe k [ox xv] [oy yv] a Hk Hx Hy Hs.
+  destruct ox, oy.
+  all: try (opp_xy safe k OGt OLt xv yv a Hk Hx Hy Hs).
+  all: try (opp_xy safe k OGt OLe xv yv a Hk Hx Hy Hs).
+  all: try (opp_xy safe k OGe OLt xv yv a Hk Hx Hy Hs).
+  all: try (opp_xy safe k OGe OLe xv yv a Hk Hx Hy Hs).
+  all: try (opp_yx safe k OGt OLt yv xv a Hk Hy Hx Hs).
+  all: try (opp_yx safe k OGt OLe yv xv a Hk Hy Hx Hs).
+  all: try (opp_yx safe k OGe OLt yv xv a Hk Hy Hx Hs).
+  all: try (opp_yx safe k OGe OLe yv xv a Hk Hy Hx Hs).
+  all: try exact I.
+  all: destruct a, xv, yv; try (vm_compute in Hx; discriminate Hx); try (vm_compute in Hy; discriminate Hy).
+  all: try exact I.
+  all: try (lazymatch goal with
+  | |- keep_ok (simplify _ ?k {| b_op := ?ox; b_val := ?xv |} {| b_op := ?oy; b_val := ?yv |}) ?a _ _ ?P =>
+    first
+    [ lazymatch eval cbn in (num_of a, num_of xv, num_of yv) with
+      | (Some ?da, Some ?dx, Some ?dy) => exact (abs_sound dec dcmp dcmp_total_pre P ox oy da dx dy eq_refl eq_refl)
+      end
+    | lazymatch constr:((a, xv, yv)) with
+      | (AStr ?s, AStr ?t, AStr ?u) => exact (abs_sound str str_cmp str_cmp_pre P ox oy s t u eq_refl eq_refl)
+      | (ABytes ?s, ABytes ?t, ABytes ?u) => exact (abs_sound str str_cmp str_cmp_pre P ox oy s t u eq_refl eq_refl)
+      end ]
+  end).
+  all: clear Hx Hy Hs Hk.
+  all: unfold keep_ok; cbn.
+  all: try (intros; reflexivity).
+  all: try (let H := fresh in intro H; discriminate H).
+  all: try (repeat match goal with b : bool |- _ => destruct b end; cbn; try exact I; try (intros; reflexivity); try (let H := fresh in intros H; discriminate H); fail).
+  all: repeat match goal with
+       | |- context [str_cmp ?x ?y] =>
+         let E := fresh "E" in destruct (str_cmp x y) eqn:E; [apply str_cmp_eq in E; subst|idtac|idtac]
+       end.
+  all: repeat match goal with |- context [re ?p ?s] => destruct (re p s) eqn:? end.
+  all: repeat match goal with |- context [dcmp ?x ?y] => destruct (dcmp x y) end.
+  all: cbn in *; try exact I; intros; try reflexivity; try discriminate; try congruence.
+Qed.
+
+
+  (* SimplifyBounds is sound for every decimal, string and byte operand:
+     an operand is returned only if it implies the other one; bottom only if no
+     atom of the node's kind satisfies both (for rounding-safe operands) *)
+  Theorem simplify_sound : forall k x y a,
+    has k a = true -> has (bound_kind x) a = true -> has (bound_kind y) a = true ->
+    bsafe x = true -> bsafe y = true ->
+    match simplify re k x y with
+    | SKeepX => satb a x = satb a x && satb a y
+    | SKeepY => satb a y = satb a x && satb a y
+    | SBottom => satb a x && satb a y = false
+    | SNone => True
+    end.
+  Proof.
+    intros k x y a Hk Hx Hy Sx Sy.
+    pose proof (simplify_sound_gen true k x y a Hk Hx Hy (fun _ => Logic.conj Sx Sy)) as H.
+    unfold keep_ok in H. destruct (simplify re k x y); auto.
+    - destruct (satb a x); [rewrite H by reflexivity|]; reflexivity.
+    - destruct (satb a y); [rewrite H by reflexivity; reflexivity|]. symmetry; apply andb_false_r.
+  Qed.
+
+  (* without any side condition an operand is dropped only when it is implied *)
+  Theorem simplify_keep_sound : forall k x y a,
+    has k a = true -> has (bound_kind x) a = true -> has (bound_kind y) a = true ->
+    match simplify re k x y with
+    | SKeepX => satb a x = true -> satb a y = true
+    | SKeepY => satb a y = true -> satb a x = true
+    | _ => True
+    end.
+  Proof.
+    intros k x y a Hk Hx Hy.
+    pose proof (simplify_sound_gen false k x y a Hk Hx Hy (fun h => False_ind _ (Bool.diff_false_true h))) as H.
+    unfold keep_ok in H. destruct (simplify re k x y); auto.
+  Qed.
 End WithRegexp.
